@@ -1,4 +1,5 @@
 import MdVerif.Model.Topology
+import MdVerif.Proofs.TopoIdxLemmas
 /-!
 # C04 — topology transformations preserve atoms, residues, chains and bonds
 
@@ -10,6 +11,9 @@ Value model of `Topology` (Model/Topology.lean).  Proved for every topology and 
 * `c04_subset_all`         keeping everything is the identity (chain ids, residue numbers, serials, bonds)
 * `c04_copy`, `c04_join_atoms`, `c04_join_bonds`, `c04_join_chain_ids`
 * `c04_eq_hash`            topologies that compare equal hash equal
+* `c04_isubset_atoms`, `c04_isubset_preserves`, `c04_isubset_all`, `c04_ijoin_*`, `c04_isubset_refines_atoms`
+                           the same for topologies whose atom numbering does not follow the residues (Model/TopoIdx.lean):
+                           kept atoms stay in index order, each in its own residue and chain
 * `c04_pdb_serials_*`      ATOM numbering (1-based, one number per TER) and CONECT numbers are the ATOM serials
 -/
 namespace MdVerif.Topo
@@ -252,5 +256,130 @@ example : subset exTop (fun i => i != 0) =
       bonds := [⟨0, 1, none, none⟩, ⟨1, 2, some 2, some 2⟩] } := by decide
 example : pdbConect exTop false = [(1, 2), (2, 3), (3, 4)] := by decide
 example : pdbConect exTop true = [(1, 2), (2, 4), (4, 5)] := by decide
+
+/-! ## topologies whose numbering does not follow the residues (Model/TopoIdx.lean) -/
+
+/-- **atoms (any numbering)**: the atoms of a subset are the kept atoms in index order, each with its name, element and serial -/
+theorem c04_isubset_atoms (t : ITop) (keep : Nat → Bool) :
+    (isubset t keep).atoms.map IAtom.core = filterIdx keep 0 (t.atoms.map IAtom.core) := by
+  simp only [isubset, List.map_map, ← filterIdx_map]
+  rfl
+
+/-- **every kept atom keeps its residue and chain**: the atom found at the new index `rank keep i` has the old atom's name,
+element and serial, sits in a residue with the old residue's name, number and segment id, in a chain with the old chain's id -/
+theorem c04_isubset_preserves (t : ITop) (keep : Nat → Bool) (i : Nat) (a : IAtom) (r : IRes)
+    (hi : t.atoms[i]? = some a) (hk : keep i = true) (hr : t.residues[a.res]? = some r) :
+    ∃ a' r', (isubset t keep).atoms[rank keep i]? = some a' ∧ a'.core = a.core ∧
+      (isubset t keep).residues[a'.res]? = some r' ∧ r'.core = r.core ∧
+      (isubset t keep).chainIds[r'.chain]? = t.chainIds[r.chain]? := by
+  let atoms' := filterIdx keep 0 t.atoms
+  let usedR : Nat → Bool := fun x => atoms'.any (fun y => y.res == x)
+  let res' := filterIdx usedR 0 t.residues
+  let usedC : Nat → Bool := fun c => res'.any (fun x => x.chain == c)
+  have ha' : atoms'[rank keep i]? = some a := by
+    rw [← hi]; exact filterIdx_getElem?_rank keep t.atoms i hk
+  have hmem : a ∈ atoms' := List.mem_of_getElem? ha'
+  have hu : usedR a.res = true := List.any_eq_true.mpr ⟨a, hmem, by simp⟩
+  have hr' : res'[rank usedR a.res]? = some r := by
+    rw [← hr]; exact filterIdx_getElem?_rank usedR t.residues a.res hu
+  have hrmem : r ∈ res' := List.mem_of_getElem? hr'
+  have huc : usedC r.chain = true := List.any_eq_true.mpr ⟨r, hrmem, by simp⟩
+  refine ⟨{ a with res := rank usedR a.res }, { r with chain := rank usedC r.chain }, ?_, rfl, ?_, rfl, ?_⟩
+  · show (atoms'.map _)[rank keep i]? = _
+    rw [List.getElem?_map, ha']; rfl
+  · show (res'.map _)[rank usedR a.res]? = _
+    rw [List.getElem?_map, hr']; rfl
+  · exact filterIdx_getElem?_rank usedC t.chainIds r.chain huc
+
+/-- **keeping every atom changes nothing** when every residue holds an atom and every chain a residue -/
+theorem c04_isubset_all (t : ITop)
+    (hres : ∀ r, r < t.residues.length → ∃ a ∈ t.atoms, a.res = r)
+    (hch : ∀ c, c < t.chainIds.length → ∃ r ∈ t.residues, r.chain = c)
+    (hwfA : ∀ a ∈ t.atoms, a.res < t.residues.length) (hwfR : ∀ r ∈ t.residues, r.chain < t.chainIds.length) :
+    isubset t (fun _ => true) = t := by
+  have hA : filterIdx (fun _ => true) 0 t.atoms = t.atoms := filterIdx_true 0 _
+  have huR : ∀ r, r < t.residues.length → (t.atoms.any (fun a => a.res == r)) = true := by
+    intro r hr
+    obtain ⟨a, ha, har⟩ := hres r hr
+    exact List.any_eq_true.mpr ⟨a, ha, by simp [har]⟩
+  have hR : filterIdx (fun r => t.atoms.any (fun a => a.res == r)) 0 t.residues = t.residues := by
+    rw [filterIdx_congr _ (fun _ => true) 0 t.residues (fun i hi => by simpa using huR i hi)]
+    exact filterIdx_true 0 _
+  have huC : ∀ c, c < t.chainIds.length → (t.residues.any (fun r => r.chain == c)) = true := by
+    intro c hc
+    obtain ⟨r, hr, hrc⟩ := hch c hc
+    exact List.any_eq_true.mpr ⟨r, hr, by simp [hrc]⟩
+  have hC : filterIdx (fun c => t.residues.any (fun r => r.chain == c)) 0 t.chainIds = t.chainIds := by
+    rw [filterIdx_congr _ (fun _ => true) 0 t.chainIds (fun i hi => by simpa using huC i hi)]
+    exact filterIdx_true 0 _
+  have hAm : t.atoms.map (fun a => ({ a with res := rank (fun r => t.atoms.any (fun a => a.res == r)) a.res } : IAtom)) = t.atoms := by
+    refine (List.map_congr_left (g := id) ?_).trans (List.map_id _)
+    intro a ha
+    have : rank (fun r => t.atoms.any (fun a => a.res == r)) a.res = a.res :=
+      rank_eq_self _ _ (fun j hj => huR j (Nat.lt_trans hj (hwfA a ha)))
+    simp [this]
+  have hRm : t.residues.map (fun r => ({ r with chain := rank (fun c => t.residues.any (fun r => r.chain == c)) r.chain } : IRes)) = t.residues := by
+    refine (List.map_congr_left (g := id) ?_).trans (List.map_id _)
+    intro r hr
+    have : rank (fun c => t.residues.any (fun r => r.chain == c)) r.chain = r.chain :=
+      rank_eq_self _ _ (fun j hj => huC j (Nat.lt_trans hj (hwfR r hr)))
+    simp [this]
+  have hB : (t.bonds.filter (fun b => (true && true))).map (fun b => ({ b with i := rank (fun _ => true) b.i, j := rank (fun _ => true) b.j } : Bond)) = t.bonds := by
+    simp [rank_true]
+  cases t with
+  | mk cids res atoms bonds =>
+    simp only [isubset] at *
+    simp only [hA, hR, hC, hAm, hRm]
+    simp [rank_true]
+
+
+/-- **join (any numbering)**: the atoms of the first operand, then those of the second, each in index order -/
+theorem c04_ijoin_atoms (a b : ITop) (k : Bool) :
+    (ijoin a b k).atoms.map IAtom.core = a.atoms.map IAtom.core ++ b.atoms.map IAtom.core := by
+  simp only [ijoin, List.map_append, List.map_map]
+  rfl
+
+/-- an atom of the second operand sits, after the join, in its own residue (same name, number when `keep_resSeq`, segment id) -/
+theorem c04_ijoin_second_residue (a b : ITop) (x : IAtom) (r : IRes) (hr : b.residues[x.res]? = some r) :
+    (ijoin a b true).residues[x.res + a.residues.length]? = some { r with chain := r.chain + a.chainIds.length } := by
+  simp only [ijoin, if_true]
+  rw [List.getElem?_append_right (by omega)]
+  simp [hr]
+
+theorem c04_ijoin_first_residue (a b : ITop) (k : Bool) (i : Nat) (hi : i < a.residues.length) :
+    (ijoin a b k).residues[i]? = a.residues[i]? := by
+  simp only [ijoin]
+  rw [List.getElem?_append_left hi]
+
+theorem c04_ijoin_bonds (a b : ITop) (k : Bool) :
+    (ijoin a b k).bonds = a.bonds ++ b.bonds.map (shiftBond a.atoms.length) := rfl
+
+theorem c04_icopy (t : ITop) : icopy t = t := rfl
+
+/-! the nested model is the special case "index = flattened position" -/
+
+/-- on a topology numbered along its residues the two models select the same atoms in the same order -/
+theorem c04_isubset_refines_atoms (t : Topology) (keep : Nat → Bool) :
+    (isubset (ofNested t) keep).atoms.map IAtom.core = (ofNested (subset t keep)).atoms.map IAtom.core := by
+  rw [c04_isubset_atoms, ofNested_atoms_core, ofNested_atoms_core, c04_subset_atoms, filterAtoms_eq_filterIdx, filterIdx_map]
+
+/-! non-vacuity: a topology whose numbering interleaves two residues (A0 B0 A1 B1) -/
+def exI : ITop :=
+  { chainIds := [some "X"]
+    residues := [⟨"AAA", 1, "", 0⟩, ⟨"BBB", 2, "", 0⟩]
+    atoms := [⟨"A0", "C", none, 0⟩, ⟨"B0", "N", none, 1⟩, ⟨"A1", "O", none, 0⟩, ⟨"B1", "S", none, 1⟩]
+    bonds := [⟨0, 2, none, none⟩, ⟨1, 3, none, none⟩, ⟨1, 2, none, none⟩] }
+
+example : isubset exI (fun i => i != 0) =
+    { chainIds := [some "X"], residues := [⟨"AAA", 1, "", 0⟩, ⟨"BBB", 2, "", 0⟩],
+      atoms := [⟨"B0", "N", none, 1⟩, ⟨"A1", "O", none, 0⟩, ⟨"B1", "S", none, 1⟩],
+      bonds := [⟨0, 2, none, none⟩, ⟨0, 1, none, none⟩] } := by decide
+example : isubset exI (fun i => i == 1 || i == 3) =
+    { chainIds := [some "X"], residues := [⟨"BBB", 2, "", 0⟩],
+      atoms := [⟨"B0", "N", none, 0⟩, ⟨"B1", "S", none, 0⟩], bonds := [⟨0, 1, none, none⟩] } := by decide
+example : (ijoin exI exI false).atoms.map (·.res) = [0, 1, 0, 1, 2, 3, 2, 3] ∧
+    (ijoin exI exI false).residues.map (·.resSeq) = [1, 2, 3, 4] := by decide
+example : isubset exI (fun _ => true) = exI :=
+  c04_isubset_all exI (by decide) (by decide) (by decide) (by decide)
 
 end MdVerif.Topo
